@@ -5,7 +5,7 @@ from every random start (= every state of the shared global RNG).  DESIGN sectio
 import json
 import math
 
-from .common import BaseHooks, V, finite, is_qmat, np, qalg, ref_request, round_sig, sub_rng
+from .common import rand_clock, BaseHooks, V, finite, is_qmat, np, qalg, ref_request, round_sig, sub_rng
 
 PROP = "C19"
 CLOCKS = [[0.0], [1e-3, -3600.0, 1e6], [1e6], [-1.0], [5e-4, 0.0, 0.0, 7200.0], [1e-9]]
@@ -111,7 +111,7 @@ def gen_trace(seed, world, tier):
             steps.append({"k": "rng", "op": "seed", "v": R.randrange(10 ** 6), "client": 1})
     call = {"k": "fn", "fn": fn, "args": [A], "kwargs": kw, "client": 2, "tags": tags}
     if R.random() < 0.1:
-        call["clock"] = R.choice(CLOCKS)   # stalled / jumping / coarse clock: must not matter
+        call["clock"] = rand_clock(R)   # stalled / jumping / coarse clock: must not matter
     if R.random() < 0.35:
         call["fault"] = {"jitter": R.randrange(2 ** 31)}
     if R.random() < 0.15 and kw["max_iterations"] > 2:
